@@ -200,6 +200,12 @@ def check(run):
     # ---- oracle on everything
     for c, r in zip(cases, impl):
         run.violations += oracle_case(c, r)
+    hung = [(c, r) for c, r in zip(cases, impl) if any(o.get("timeout") for o in r.get("ops", []))]
+    if hung:
+        c, r = hung[0]
+        k = [i for i, o in enumerate(r["ops"]) if o.get("timeout")][0]
+        run.broken.append(Broken("harness", "a library call did not return within the time limit",
+                                 {"cases": len(hung), "first": {"kind": c["kind"], "call": describe(c["ops"][k]), "ops": c["ops"][:k + 1]}}))
 
     # ---- correspondence on the modelled cases
     modelled = [(c, r, G.case_to_coq(c)) for c, r in zip(cases, impl) if "harness_error" not in r]
